@@ -34,6 +34,7 @@ import (
 	kdisruption "sigs.k8s.io/karpenter/pkg/controllers/disruption"
 	nclifecycle "sigs.k8s.io/karpenter/pkg/controllers/nodeclaim/lifecycle"
 	pscheduling "sigs.k8s.io/karpenter/pkg/controllers/provisioning/scheduling"
+	statenodeclaimgc "sigs.k8s.io/karpenter/pkg/controllers/state/nodeclaimgc"
 	"sigs.k8s.io/karpenter/pkg/operator/injection"
 	"sigs.k8s.io/karpenter/pkg/state/nodepoolhealth"
 
@@ -111,6 +112,7 @@ type osim struct {
 	repl    map[string][]string             // replacement NodeClaim names per command id (API objects survive restarts)
 	cleanup *kdisruption.Controller
 	lc      *nclifecycle.Controller
+	gc      *statenodeclaimgc.Controller
 	roundN  int
 	writes  int // successful API writes seen so far (fix-point detection)
 	lagged   [][2]string // objects whose last change the informers have not seen yet (kind, name)
@@ -133,6 +135,7 @@ func (o *osim) fresh() {
 	o.cleanup = kdisruption.NewController(w.Clock, w.Client, o.prov, w.Prov, w.Rec, o.cluster, o.queue, o.cost,
 		kdisruption.WithMethods())
 	o.lc = nclifecycle.NewController(w.Clock, w.Client, w.Prov, w.Rec, nodepoolhealth.NewState(), nil)
+	o.gc = statenodeclaimgc.NewController(w.Client, o.cluster)
 }
 
 func matches(c CallSpec, call world.Call) bool {
@@ -685,6 +688,25 @@ func (o *osim) quiescent(st OStep) {
 		}
 	}
 	o.sync()
+	// Karpenter's own healer for the create/delete race of the provisioner's post-create seed (state.nodeclaimgc, runs
+	// 15 s after every NodeClaim create): an unlaunched entry of a NodeClaim that no longer exists would keep the cluster
+	// state unsynced - and the disruption controller idle - for ever
+	o.rmu.Lock()
+	var created []string
+	for _, names := range o.repl {
+		created = append(created, names...)
+	}
+	o.rmu.Unlock()
+	sort.Strings(created)
+	for _, name := range created {
+		if name == "-" || name == "" {
+			continue
+		}
+		o.w.Emit(trace.M{"e": "Begin", "controller": "state.nodeclaimgc", "object": name})
+		errS, panicked := o.guarded(nil, func() error { _, e := o.gc.Reconcile(o.ctx, req(name, "")); return e })
+		o.w.Emit(trace.M{"e": "End", "controller": "state.nodeclaimgc", "object": name, "err": short(errS), "panic": panicked,
+			"started": false, "cands": []trace.M{}, "repl": []string{}, "outcome": "-"})
+	}
 	for round := 0; round < 4; round++ {
 		before := o.writes
 		o.queueRec(OStep{Step: Step{A: "QueueRec"}})
